@@ -1,6 +1,8 @@
 import OmbottModel.Model.History
 import OmbottModel.Lemmas.History
 import OmbottModel.Lemmas.WsgiCast
+import OmbottModel.Lemmas.ReqObjEnv
+import OmbottModel.Lemmas.ReqObjRefine
 /-!
 C09 — Each response depends on its own request only; retained state is bounded.
 Property theorems only; helper lemmas live in `Lemmas/History.lean`.  All statements are about
@@ -229,3 +231,370 @@ theorem singleton_residue :
       (serve₁ failingAfterApp) AppState.init)).length = 5 := by decide +kernel
 
 end Ombott.History
+
+
+/-! ═══════════════════════════════════════════════════════════════════════════════════════════════
+## The request OBJECT protocol (`Model/ReqObj.lean`; extension `reqobj`)
+
+What the reused `Request` object is made of and what each entry point does to it, for all inputs and
+operation sequences.  Statements are about `step` / `run` / `setItem` / `delItem` / `getAttr` /
+`setAttr` / `initReq` / `copyReq` / `copyError` of `Model/ReqObj.lean`, the functions the driver
+runs for `reqobj` lines.
+═══════════════════════════════════════════════════════════════════════════════════════════════ -/
+namespace Ombott.ReqObj
+open Py
+open Ombott.EnvCache (Key Val todelete)
+
+/-- the generated constants agree with each other and with the `ts_props` table of C08: the slots
+are the per-thread ones followed by the ordinary ones, and the per-thread ones are exactly the
+attributes `ts_props` was applied with (`environ`, `_env_get`) -/
+theorem reqobj_tables_tied :
+    Gen.roThreadLocal = Gen.tsRequestProps ∧ Gen.roSlots = Gen.roThreadLocal ++ Gen.roPlainSlots ∧
+    Gen.roInitialListeners = [(Gen.roEvent, 1)] ∧ Gen.roReadonlyRaises = "KeyError" ∧
+    Gen.roDelMissingRaises = none ∧ Gen.roCopyKeepsListeners = false ∧ Gen.roCopySelfKeyIsCopy = true := by decide
+
+/-- only `environ` (with `_env_get`) is per thread: what thread `t` assigns is invisible to every
+other thread, and `__listeners__` / `config` are one value for all threads -/
+theorem reqobj_only_environ_thread_local (r : Req) (t t' : Nat) (e : REnv) (h : t' ≠ t) :
+    (r.setEnv t e).env t' = r.env t' ∧ (r.setEnv t e).listeners = r.listeners ∧
+    (r.setEnv t e).config = r.config := ⟨setEnv_env_other r t t' e h, rfl, rfl⟩
+
+/-- `request.__init__(environ')` (what `Ombott._handle` does per request): afterwards thread `t`
+sees exactly `environ'` plus the self entry — whatever the object held before — and the only things
+carried over are `__listeners__`, `config` and the other threads' environs -/
+theorem reqobj_init_forgets (r : Req) (t i : Nat) (environ : Option REnv) :
+    (initReq r t i environ).env t = some ((environ.getD []).set kSelf (.req i)) ∧
+    (initReq r t i environ).listeners = r.listeners ∧ (initReq r t i environ).config = r.config ∧
+    ∀ t', t' ≠ t → (initReq r t i environ).env t' = r.env t' :=
+  ⟨setEnv_env_same _ _ _, rfl, rfl, fun t' h => setEnv_env_other r t t' _ h⟩
+
+/-- **C09 for the request object, completeness of the residue**: two request objects with the same
+`__listeners__` and `config` — e.g. the object after ANY history of earlier requests and a freshly
+built one with the same listeners — answer every read of thread `t` identically once
+`__init__(environ')` has run: `get`, `keys`, `__iter__`, `__len__`, `__getitem__`, and every
+attribute (slots, extension attributes, descriptor values).  So no extension attribute, cached
+property or environ key of request n is readable in request n+1; `__listeners__` and `config` are
+the complete list of what is. -/
+theorem reqobj_reinit_complete (r1 r2 : Req) (t i : Nat) (environ : Option REnv)
+    (hl : r1.listeners = r2.listeners) (hc : r1.config = r2.config) :
+    let a := initReq r1 t i environ
+    let b := initReq r2 t i environ
+    (∀ k d, getR a t k d = getR b t k d) ∧ (∀ it, keysR a t it = keysR b t it) ∧ lenR a t = lenR b t ∧
+    (∀ k, getItemR a t k = getItemR b t k) ∧ (∀ name, getAttr a t i name = getAttr b t i name) := by
+  have ha := (reqobj_init_forgets r1 t i environ).1
+  have hb := (reqobj_init_forgets r2 t i environ).1
+  refine ⟨fun k d => by simp only [getR, ha, hb], fun it => by simp only [keysR, ha, hb],
+    by simp only [lenR, ha, hb], fun k => by simp only [getItemR, ha, hb], fun name => ?_⟩
+  simp only [getAttr, ha, hb]
+  have h1 : (initReq r1 t i environ).listeners = (initReq r2 t i environ).listeners := hl
+  have h2 : (initReq r1 t i environ).config = (initReq r2 t i environ).config := hc
+  rw [h1, h2]
+
+/-- an extension attribute of the earlier request is `AttributeError` after `__init__` with an
+environ that does not carry its key -/
+theorem reqobj_ext_gone_after_init (r : Req) (t i : Nat) (env' : REnv) (name : Str)
+    (hs : Gen.roSlots.contains (String.ofList name) = false) (hk : env'.get? (extKey name) = none)
+    (hself : extKey name ≠ kSelf) :
+    getAttr (initReq r t i (some env')) t i name = .error .attributeError := by
+  simp only [getAttr, hs, (reqobj_init_forgets r t i (some env')).1, Option.getD_some,
+    get?_set_other env' kSelf (extKey name) (.req i) hself, hk]
+  rfl
+
+/-- extension attributes: `request.name = v` then `request.name` returns `v` (a value with `__get__`
+answers `__get__(request)`); the value lives in the environ under `ombott.request.ext.<name>` — and
+is written there even when the read-only flag is set -/
+theorem reqobj_setattr_getattr (r r' : Req) (t i : Nat) (name : Str) (v : RVal)
+    (h : setAttr r t name v = some (.ok r')) :
+    getAttr r' t i name = .ok (match v with | .desc tag => .got tag i | v => .val v) ∧
+    ∃ env, r.env t = some env ∧ r'.env t = some (env.set (extKey name) v) := by
+  unfold setAttr at h
+  split at h
+  · cases h
+  · rename_i hs
+    cases he : r.env t with
+    | none => rw [he] at h; cases h
+    | some env =>
+      rw [he] at h
+      simp only [Option.some.injEq, Except.ok.injEq] at h
+      subst h
+      refine ⟨?_, env, rfl, setEnv_env_same _ _ _⟩
+      simp only [getAttr, hs, setEnv_env_same, get?_set_same]
+      cases v <;> rfl
+
+/-- read-only flag: while `ombott.request.readonly` is truthy, NO sequence of item assignments and
+deletions changes anything — every one of them raises `KeyError` and the world (every environ,
+listener list, the log) stays as it was.  (`__setattr__` of an extension attribute is not covered:
+it writes the environ directly, see `reqobj_setattr_getattr` and the example below.) -/
+theorem reqobj_readonly_frozen (w : World) (t i : Nat) (r : Req) (env : REnv)
+    (hr : w.reqs[i]? = some r) (he : r.env t = some env) (hro : truthy w t (env.get? kReadonly) = .ok true)
+    (ops : List Op) (hops : ∀ op ∈ ops, (∃ k v, op = .setItem t i k v) ∨ (∃ k, op = .delItem t i k)) :
+    run w ops = (w, ops.map fun _ => Ans.err .keyError) := by
+  induction ops with
+  | nil => rfl
+  | cons op rest ih =>
+    have hrest := ih (fun o ho => hops o (List.mem_cons_of_mem _ ho))
+    rcases hops op (List.mem_cons_self ..) with ⟨k, v, rfl⟩ | ⟨k, rfl⟩
+    · simp only [run, step, setItem_readonly w t i k v r env hr he hro, hrest, List.map_cons]
+    · simp only [run, step, delItem_readonly w t i k r env hr he hro, hrest, List.map_cons]
+
+/-- `del request[k]` on an object with the built-in listener and one recording listener, flag not
+set, `k` not among the cache keys its own assignment drops: the listeners are called exactly once
+with `(k, "")` — unless the value already was `""`, then not at all — the caches depending on `k`
+are dropped, and the key is absent afterwards.  No `KeyError` for a missing key: it is assigned
+`""` first (so the listeners fire for it as well). -/
+theorem reqobj_delitem (w : World) (t i n : Nat) (k : Key) (r : Req) (env : REnv)
+    (hr : w.reqs[i]? = some r) (he : r.env t = some env)
+    (hl : r.listeners.get? evChanged = some [.builtin, .recd n])
+    (hro : truthy w t (env.get? kReadonly) = .ok false) (hk : k ∉ todelete k) :
+    delItem w t i k =
+      if unchanged env k (.plain (.str [])) then (.ok (), w.setReq i (r.setEnv t (env.del k)))
+      else (.ok (), { w.setReq i (r.setEnv t ((onEnvChanged (env.set k (.plain (.str []))) k).del k)) with
+                      log := w.log ++ [⟨n, i, [.plain (.str k), .plain (.str [])]⟩] }) := by
+  unfold delItem
+  by_cases hu : unchanged env k (.plain (.str [])) = true
+  · have hs : setItem w t i k (.plain (.str [])) = (.ok (), w) := by
+      unfold setItem; simp only [hr, he, hro, hu, if_true]
+    have hp : (env.get? k).isSome = true := by
+      unfold unchanged at hu
+      cases hg : env.get? k with
+      | none => rw [hg] at hu; cases hu
+      | some _ => rfl
+    simp only [hs, hr, he, hp, hu, if_true]
+  · have hu' : unchanged env k (.plain (.str [])) = false := by simpa using hu
+    rw [setItem_recorded w t i n k _ r env hr he hl hro hu']
+    have hget : (w.setReq i (r.setEnv t (onEnvChanged (env.set k (.plain (.str []))) k))).reqs[i]? =
+        some (r.setEnv t (onEnvChanged (env.set k (.plain (.str []))) k)) := setReq_get w i _ r hr
+    have hp : ((onEnvChanged (env.set k (.plain (.str []))) k).get? k).isSome = true := by
+      unfold onEnvChanged
+      rw [get?_foldl_del_other _ _ _ hk, get?_set_same]; rfl
+    simp only [hget, setEnv_env_same, hp, hu', if_true, Bool.false_eq_true, if_false]
+    simp [World.setReq]
+
+/-- afterwards the key is absent -/
+theorem reqobj_delitem_absent (env : REnv) (k : Key) (e : REnv) : ((e.del k).get? k) = none ∧
+    ((onEnvChanged (env.set k (.plain (.str []))) k).del k).get? k = none :=
+  ⟨get?_del_same _ _, get?_del_same _ _⟩
+
+/-- **agreement with the cache-layer model** (`EnvCache.setItem`, what `Props/EnvCache.lean` is
+about): on an environ of plain values, with the listeners of a fresh object and the flag not set,
+`request[k] = s` leaves thread `t` with exactly `EnvCache.setItem e k s` -/
+theorem reqobj_setitem_agrees_envcache (w : World) (t i : Nat) (k : Key) (s : Str) (r : Req)
+    (e : Ombott.EnvCache.Env) (hr : w.reqs[i]? = some r) (he : r.env t = some (embed e))
+    (hl : r.listeners.get? evChanged = some [.builtin])
+    (hro : truthy w t ((embed e).get? kReadonly) = .ok false) :
+    (setItem w t i k (.plain (.str s))).1 = .ok () ∧
+    ∃ r', (setItem w t i k (.plain (.str s))).2.reqs[i]? = some r' ∧
+      r'.env t = some (embed (Ombott.EnvCache.setItem e k (.str s))) ∧
+      r'.listeners = r.listeners ∧ r'.config = r.config := by
+  have hun : unchanged (embed e) k (.plain (.str s)) = decide (e.get? k = some (.str s)) := by
+    unfold unchanged
+    rw [embed_get?]
+    cases hg : e.get? k with
+    | none => simp
+    | some x =>
+      have : pyEq (.plain x) (.plain (.str s)) = decide (x = .str s) := by
+        by_cases hx : x = .str s
+        · subst hx; simp [pyEq]
+        · have h1 : ((RVal.plain x) == (RVal.plain (.str s))) = false := by
+            rw [beq_eq_false_iff_ne]; intro h; exact hx (RVal.plain.inj h)
+          simp only [pyEq, h1, Bool.false_or, eqInt]
+          cases eqInt x <;> simp [hx]
+      simp [this]
+  by_cases hc : e.get? k = some (.str s)
+  · have hs : setItem w t i k (.plain (.str s)) = (.ok (), w) := by
+      unfold setItem; simp only [hr, he, hro, hun, hc, decide_true, if_true]
+    rw [hs]
+    exact ⟨rfl, r, hr, by simp [Ombott.EnvCache.setItem, hc, he], rfl, rfl⟩
+  · have hu : unchanged (embed e) k (.plain (.str s)) = false := by rw [hun]; simpa using hc
+    rw [setItem_fresh w t i k _ r (embed e) hr he hl hro hu]
+    refine ⟨rfl, _, setReq_get w i _ r hr, ?_, rfl, rfl⟩
+    simp [Ombott.EnvCache.setItem, hc, embed_set, embed_onEnvChanged]
+
+/-- **a listener registered with `on` is per object, not per request and not per thread**: after
+`on('env_changed', cb)` in some request, ANY later `request.__init__(environ')` on ANY thread keeps
+it, and the next changing assignment there calls it.  (Documented residue of C09: application code
+can install a persistent listener — configuration in the sense of `add_hook`.) -/
+theorem reqobj_listener_survives_init (w : World) (t' i n : Nat) (r : Req) (environ : Option REnv)
+    (k : Key) (v : RVal)
+    (hi : i < w.reqs.length) (hl : r.listeners.get? evChanged = some [.builtin, .recd n])
+    (hflag : ((environ.getD []).set kSelf (.req i)).get? kReadonly = none)
+    (hne : unchanged ((environ.getD []).set kSelf (.req i)) k v = false) :
+    let w1 := w.setReq i (initReq r t' i environ)
+    (setItem w1 t' i k v).1 = .ok () ∧ (setItem w1 t' i k v).2.log = w.log ++ [⟨n, i, [.plain (.str k), v]⟩] := by
+  intro w1
+  have hr : w1.reqs[i]? = some (initReq r t' i environ) := by
+    simp [w1, World.setReq, List.getElem?_set_self hi]
+  have he := (reqobj_init_forgets r t' i environ).1
+  rw [setItem_recorded w1 t' i n k v _ _ hr he hl (by rw [hflag]; rfl) hne]
+  exact ⟨rfl, rfl⟩
+
+theorem getFrom_idem (s : Option (List (String × String))) : getFrom (some (getFrom s)) = getFrom s := by
+  simp [getFrom, Gen.roConfigDefaults, lookupS, List.find?]
+
+/-- `copy()`: the new object has the listeners of `__new__` only (those of the original are NOT
+copied), the same configuration, and in the copying thread a new environ with the same entries
+(the same value objects: a shallow copy) whose `ombott.request` entry is the copy itself; the
+original is not touched -/
+theorem reqobj_copy (r c : Req) (t new : Nat) (cfg : Option (List (String × String)))
+    (hcfg : r.config = getFrom cfg) (h : copyReq r t new = .ok c) :
+    ∃ env, r.env t = some env ∧ c.env t = some (env.set kSelf (.req new)) ∧
+      c.listeners = (newReq none).listeners ∧ c.config = r.config ∧ ∀ t', t' ≠ t → c.env t' = none := by
+  unfold copyReq at h
+  cases he : r.env t with
+  | none => rw [he] at h; cases h
+  | some env =>
+    rw [he] at h
+    simp only [Except.ok.injEq] at h
+    subst h
+    refine ⟨env, rfl, (reqobj_init_forgets _ t new (some env)).1, rfl, ?_, fun t' ht => ?_⟩
+    · show getFrom (some r.config) = r.config
+      rw [hcfg, getFrom_idem]
+    · rw [(reqobj_init_forgets _ t new (some env)).2.2.2 t' ht]; rfl
+
+/-- **refinement of the mapping protocol**: for EVERY sequence of `get` / `keys` / `__iter__` /
+`__len__` / `__getitem__` / `__setitem__` / `__delitem__` operations of a thread on a request object
+with the listeners of a fresh object and the read-only flag absent, the answers and the environ are
+those of the abstract machine `specRun`: an insertion-ordered finite map `Key → value` whose
+assignment (`specSet`) additionally removes exactly the cache keys `_on_env_changed` lists for the
+key — and nothing at all when the key already holds an equal value —, and whose deletion of a
+missing key does not raise.  Listeners and configuration are untouched.  (`MOp.safe`: the flag is
+not assigned — `reqobj_readonly_frozen` covers that regime — and a deleted key is not one of the
+cache keys its own assignment drops.) -/
+theorem reqobj_refines_map (ops : List MOp) (w : World) (t i : Nat) (r : Req) (env : REnv)
+    (hr : w.reqs[i]? = some r) (he : r.env t = some env)
+    (hl : r.listeners.get? evChanged = some [.builtin])
+    (hflag : env.get? kReadonly = none) (hs : ∀ op ∈ ops, op.safe = true) :
+    ∃ r', (run w (ops.map (MOp.toOp t i))).1.reqs[i]? = some r' ∧ r'.env t = some (specRun env ops).1 ∧
+      r'.listeners = r.listeners ∧ r'.config = r.config ∧
+      (run w (ops.map (MOp.toOp t i))).2 = (specRun env ops).2 :=
+  run_refines ops w t i r env hr he hl hflag hs
+
+theorem copyHeaders_prefix (h : List (Str × HRef)) : ∀ ls, ∃ x, (copyHeaders h ls).2 = ls ++ x := by
+  induction h with
+  | nil => intro ls; exact ⟨[], by simp [copyHeaders]⟩
+  | cons p r ih =>
+    intro ls
+    obtain ⟨k, v⟩ := p
+    cases v with
+    | one s => obtain ⟨x, hx⟩ := ih ls; exact ⟨x, by simp [copyHeaders, hx]⟩
+    | ref id =>
+      obtain ⟨x, hx⟩ := ih (ls ++ [ls.getD id []])
+      refine ⟨[ls.getD id []] ++ x, ?_⟩
+      simp only [copyHeaders, hx, List.append_assoc]
+
+/-- `_copy_error` only ALLOCATES: the raised object is a new one with the template's class, status
+code, status line and body; every existing object, header list and cookie jar — in particular the
+template's — is left exactly as it was, and the copy's list-valued headers and cookie jar are new
+objects (indices beyond the old heaps), so that appending to a header list or setting a cookie on
+the copy cannot reach the template. -/
+theorem reqobj_copy_error_allocates (w w' : EWorld) (i c : Nat) (h : copyError w i = .ok (w', c)) :
+    c = w.objs.length ∧ (∃ x, w'.lists = w.lists ++ x) ∧ (∃ y, w'.jars = w.jars ++ y) ∧
+    ∃ tpl o, w.objs[i]? = some tpl ∧ w'.objs = w.objs ++ [o] ∧ o.cls = tpl.cls ∧ o.code = tpl.code ∧
+      o.line = tpl.line ∧ o.body = tpl.body ∧ (∀ j, o.cookies = some j → w.jars.length ≤ j) := by
+  unfold copyError at h
+  cases ht : w.objs[i]? with
+  | none => rw [ht] at h; cases h
+  | some tpl =>
+    rw [ht] at h
+    obtain ⟨x, hx⟩ := copyHeaders_prefix tpl.headers w.lists
+    simp only at h
+    split at h
+    · simp only [Except.ok.injEq, Prod.mk.injEq] at h
+      obtain ⟨rfl, rfl⟩ := h
+      exact ⟨rfl, ⟨x, hx⟩, ⟨[], by simp⟩, tpl, _, rfl, rfl, rfl, rfl, rfl, rfl, by intro j hj; cases hj⟩
+    · split at h
+      · cases h
+      · simp only [Except.ok.injEq, Prod.mk.injEq] at h
+        obtain ⟨rfl, rfl⟩ := h
+        exact ⟨rfl, ⟨x, hx⟩, ⟨_, rfl⟩, tpl, _, rfl, rfl, rfl, rfl, rfl, rfl,
+          by intro j hj; simp only [Option.some.injEq] at hj; omega⟩
+
+section NonVacuityReqObj
+
+local instance : DecidableEq (Except Err Bool) := fun a b =>
+  match a, b with
+  | .ok x, .ok y => if h : x = y then isTrue (by rw [h]) else isFalse (by intro h'; cases h'; exact h rfl)
+  | .error x, .error y => if h : x = y then isTrue (by rw [h]) else isFalse (by intro h'; cases h'; exact h rfl)
+  | .ok _, .error _ => isFalse (by intro h; cases h)
+  | .error _, .ok _ => isFalse (by intro h; cases h)
+
+def exW : World :=
+  (run (World.init [[]]) [.new 0 (some [(cs!"QUERY_STRING", .plain (.str cs!"a=1")), (cs!"E", .plain (.str []))]) none,
+    .on 0 evChanged (.recd 7)]).1
+
+/-- `reqobj_delitem`, `reqobj_listener_survives_init`: hypotheses met by a concrete object (built-in
++ one recording listener); a present key, a key holding `""`, a missing key -/
+example : ∃ r env, exW.reqs[0]? = some r ∧ r.env 0 = some env ∧
+    r.listeners.get? evChanged = some [.builtin, .recd 7] ∧ truthy exW 0 (env.get? kReadonly) = .ok false ∧
+    cs!"QUERY_STRING" ∉ todelete cs!"QUERY_STRING" := by
+  refine ⟨_, _, rfl, rfl, ?_, ?_, ?_⟩ <;> decide +kernel
+example : (run exW [.delItem 0 0 cs!"QUERY_STRING", .delItem 0 0 cs!"E", .delItem 0 0 cs!"missing", .keys 0 0]).2 =
+    [.unit, .unit, .unit, .keys [kSelf]] := by decide +kernel
+example : (run exW [.delItem 0 0 cs!"QUERY_STRING", .delItem 0 0 cs!"E", .delItem 0 0 cs!"missing"]).1.log =
+    [⟨7, 0, [.plain (.str cs!"QUERY_STRING"), .plain (.str [])]⟩, ⟨7, 0, [.plain (.str cs!"missing"), .plain (.str [])]⟩] := by
+  decide +kernel
+
+/-- the listener installed during request 1 on thread 0 is called during request 2 on thread 1 -/
+example : (run exW [.init 1 0 (some [(cs!"PATH_INFO", .plain (.str cs!"/two"))]),
+    .setItem 1 0 cs!"X" (.plain (.str cs!"1"))]).1.log = [⟨7, 0, [.plain (.str cs!"X"), .plain (.str cs!"1")]⟩] := by
+  decide +kernel
+
+/-- `reqobj_readonly_frozen`: flag set through the environ; and the one way around it -/
+def exRO : World := (run (World.init []) [.new 0 (some [(kReadonly, .plain (.bool true)), (cs!"a", .plain (.str cs!"1"))]) none]).1
+example : ∃ r env, exRO.reqs[0]? = some r ∧ r.env 0 = some env ∧ truthy exRO 0 (env.get? kReadonly) = .ok true :=
+  ⟨_, _, rfl, rfl, by decide +kernel⟩
+example : (run exRO [.setItem 0 0 cs!"a" (.plain (.str cs!"2")), .delItem 0 0 cs!"a", .setAttr 0 0 cs!"user" (.plain (.str cs!"u")),
+    .getAttr 0 0 cs!"user", .getItem 0 0 cs!"a"]).2 =
+    [.err .keyError, .err .keyError, .unit, .attr (.val (.plain (.str cs!"u"))), .val (some (.plain (.str cs!"1")))] := by
+  decide +kernel
+
+/-- `reqobj_setattr_getattr`, `reqobj_ext_gone_after_init`, `reqobj_copy`: a descriptor value, then a new request -/
+example : (run exW [.setAttr 0 0 cs!"user" (.desc cs!"t"), .getAttr 0 0 cs!"user", .copy 0 0,
+    .getItem 0 1 kSelf, .getItem 0 0 kSelf, .getAttr 0 1 cs!"__listeners__", .getAttr 0 1 cs!"user",
+    .init 0 0 (some []), .getAttr 0 0 cs!"user", .getAttr 0 1 cs!"user"]).2 =
+    [.unit, .attr (.got cs!"t" 0), .created 1, .val (some (.req 1)), .val (some (.req 0)),
+     .attr (.listeners [(evChanged, [.builtin])]), .attr (.got cs!"t" 1), .unit, .err .attributeError,
+     .attr (.got cs!"t" 1)] := by decide +kernel
+example : Gen.roSlots.contains (String.ofList cs!"user") = false ∧ extKey cs!"user" ≠ kSelf := by decide
+
+/-- shallow copy: a mutable VALUE is shared between the original and the copy -/
+example : (run exW [.setItem 0 0 cs!"shared" (.cell 0), .copy 0 0, .getItem 0 1 cs!"shared", .push 0 cs!"x", .cell 0]).2 =
+    [.unit, .created 1, .val (some (.cell 0)), .unit, .strs [cs!"x"]] := by decide +kernel
+
+/-- `reqobj_setitem_agrees_envcache`: a fresh object on a plain environ (the self entry aside) -/
+example : (EnvCache.setItem [(cs!"QUERY_STRING", .str cs!"a=1"), (cs!"ombott.request.query", .dict [])] cs!"QUERY_STRING" (.str cs!"b")) =
+    [(cs!"QUERY_STRING", .str cs!"b")] := by decide +kernel
+
+/-- a listener that removes itself makes `emit` skip the next one; one that adds another has the new
+one called in the same `emit` -/
+example : (run (World.init []) [.new 0 none none, .on 0 cs!"e" (.once cs!"e" 1), .on 0 cs!"e" (.recd 2),
+    .on 0 cs!"e" (.adder cs!"e" 3 4), .emit 0 0 cs!"e" [], .emit 0 0 cs!"e" []]).1.log.map (·.n) =
+    [1, 3, 4, 2, 3, 4, 4] := by decide +kernel
+
+
+/-- `reqobj_refines_map`: a safe operation sequence and what the abstract machine answers -/
+example : ∀ op ∈ [MOp.setItem cs!"QUERY_STRING" (.plain (.str cs!"b=2")), .delItem cs!"missing", .keys, .len,
+    .getItem cs!"nope"], op.safe = true := by decide +kernel
+example : (specRun [(kSelf, .req 0), (cs!"QUERY_STRING", .plain (.str cs!"a")), (cs!"ombott.request.query", .plain (.dict []))]
+    [.setItem cs!"QUERY_STRING" (.plain (.str cs!"b=2")), .delItem cs!"missing", .keys, .len, .getItem cs!"nope"]).2 =
+    [.unit, .unit, .keys [kSelf, cs!"QUERY_STRING"], .len 2, .err .keyError] := by decide +kernel
+
+/-- `_raise` with a mapped template carrying a list header and a cookie: the copy equals the template,
+and mutating the copy (header list, cookie, status, body) leaves the template as it was -/
+def exEW : EWorld :=
+  { objs := [{ cls := "HTTPError", code := 400, line := cs!"400 Bad Request", body := cs!"Bad",
+               headers := [(cs!"X-A", .ref 0), (cs!"Y", .one cs!"s")], cookies := some 0 }],
+    lists := [[cs!"1", cs!"2"]], jars := [[(cs!"sid", cs!"abc")]] }
+example : (match raiseR exEW [("RequestError", 0)] "BodySizeError" (some "RequestError") with
+    | .ok (w1, some 1) =>
+      decide (eview w1 1 = eview w1 0) &&
+      decide (eview (erun w1 [.hdrAppend 1 cs!"X-A" cs!"3", .cookieSet 1 cs!"sid" cs!"evil", .setStatus 1 500 cs!"500 X",
+        .setBody 1 cs!"x"]) 0 = eview exEW 0) &&
+      decide (eview (erun w1 [.hdrAppend 1 cs!"X-A" cs!"3"]) 1 ≠ eview w1 1)
+    | _ => false) = true := by decide +kernel
+/-- hypothesis of `reqobj_copy_error_allocates` -/
+example : (match copyError exEW 0 with | .ok _ => true | .error _ => false) = true := by decide +kernel
+
+end NonVacuityReqObj
+
+end Ombott.ReqObj
